@@ -430,6 +430,10 @@ impl C20 {
                 if ready {
                     return Some(bad("gated-request-completed-at-once", format!("get_or_cache_dependencies({})", u.display_solvable(s))));
                 }
+                // a request that is merely in flight has fetched nothing yet
+                if let Some(f) = availability(&cache, &[], &[], "while a dependencies request is suspended in the provider") {
+                    return Some(f);
+                }
                 let mut b = Box::pin(cache.get_or_cache_dependencies(sid));
                 if with_listener {
                     let _ = futures::future::poll_fn(|cx| Poll::Ready(b.as_mut().poll(cx).is_ready())).await;
@@ -464,6 +468,9 @@ impl C20 {
                 let ready = futures::future::poll_fn(|cx| Poll::Ready(a.as_mut().poll(cx).is_ready())).await;
                 if ready {
                     return Some(bad("gated-request-completed-at-once", format!("get_or_cache_candidates({})", u.packages[pkg].name)));
+                }
+                if let Some(f) = availability(&cache, &[], &[s], "while a candidates request is suspended in the provider") {
+                    return Some(f);
                 }
                 let mut b = Box::pin(cache.get_or_cache_candidates(name));
                 if with_listener {
